@@ -183,10 +183,11 @@ def f_walk(acc, term):
 
 
 def qall_line(q):
-    return 'qall oids=%s bounds=%s serials=%s hsizes=%s windows=%s iters=%s linv=%s' % (
+    return 'qall oids=%s bounds=%s serials=%s hsizes=%s windows=%s fwindows=%s iters=%s linv=%s' % (
         ','.join(hx(o) for o in q['oids']), ','.join(hx(b) for b in q['bounds']),
         ','.join(hx(s) for s in q['serials']), ','.join(str(n) for n in q['hsizes']),
         ','.join('%d:%d' % w for w in q['windows']),
+        ','.join('%s:%d:%d' % (tok(u), f, l) for u, f, l in q['fwindows']),
         ','.join('%s:%s' % ('None' if a is None else hx(a), 'None' if b is None else hx(b))
                  for a, b in q['iters']),
         ','.join(str(n) for n in q['linv']))
@@ -214,6 +215,8 @@ def qall_segments(api, q, kind):
     if kind == 'fs':
         for f, l in q['windows']:
             segs.append('undoLog(%d,%d)=%s' % (f, l, f_entries(api.undoLog(f, l))))
+        for u, f, l in q['fwindows']:
+            segs.append('undoLogF(%s,%d,%d)=%s' % (fmt_bytes(u), f, l, f_entries(api.undoLogF(u, f, l))))
     for a, b in q['iters']:
         segs.append('iterator(%s,%s)=%s' % ('None' if a is None else hx(a), 'None' if b is None else hx(b),
                                             f_txns(api.iterator(a, b))))
@@ -257,6 +260,9 @@ class OracleAPI:
 
     def undoLog(self, f, l):
         return self.h.undoLog(f, l)
+
+    def undoLogF(self, u, f, l):
+        return self.h.undoLogF(u, f, l)
 
     def iterator(self, a, b):
         return [(t['tid'], t['status'], t['u'], t['d'], t['e'],
@@ -491,6 +497,24 @@ class RealFS(RealBase):
             return r
         return guard(f)
 
+    def undoLogF(self, user, first, last):
+        """undoLog with a filter on the user name, and the same through undoInfo's specification"""
+        def ids(l):
+            return [(u64(base64.decodebytes(d['id'] + b'\n')), d['user_name'], d['description'],
+                     self.ext_of({k: v for k, v in d.items()
+                                  if k not in ('time', 'user_name', 'description', 'id', 'size')}), d['size'])
+                    for d in l]
+
+        def f():
+            r = ids(self.st.undoLog(first, last, lambda d: d['user_name'] == user))
+            if last > first and ids(self.st.undoLog(first, -(last - first),
+                                                    lambda d: d['user_name'] == user)) != r:
+                return 'err:negative-last-differs'
+            if ids(self.st.undoInfo(first, last, {'user_name': user})) != r:
+                return 'err:undoInfo-specification-differs'
+            return r
+        return guard(f)
+
     def lastInvalidations(self, n):
         return guard(lambda: [(u64(t), [u64(o) for o in os_]) for t, os_ in self.st.lastInvalidations(n)])
 
@@ -578,6 +602,13 @@ def query_args(h, rng_q, full, extra_oids):
     unknown = [o for o in (7, 8, 9, 11, 12, 13, 14, 15, 18, 19, 20, 21) if o not in oids][0]
     oids = oids + [unknown]
     n = len(tids)
+    users = []
+    for t in h.txns[::-1]:
+        if t['u'] not in users:
+            users.append(t['u'])
+    users = users[:3 if full else 1] + [b'\x7fnobody']
+    fw = [(0, 20), (0, 1), (1, 3), (0, 2), (2, 5)] if full else [(0, 2), (1, 3)]
+    fwindows = [(u, f, l) for u in users for f, l in fw]
     if full:
         bset = {0, MAXTID}
         for t in tids:
@@ -605,7 +636,7 @@ def query_args(h, rng_q, full, extra_oids):
             iters += [(tids[-1], None), (None, max(tids[-1] - 1, 0))]
         linv = [1, 3]
     return dict(oids=oids, bounds=bounds, serials=serials, hsizes=hsizes, windows=windows, iters=iters,
-                linv=linv)
+                linv=linv, fwindows=fwindows)
 
 
 class Run:
@@ -651,7 +682,15 @@ def execute(case, tmp, full_every=False):
             nxt = None
             if txn.get('overlap') and ti + 1 < len(txns) and not (kind == 'demo' and ti + 1 <= base_n):
                 nxt = txns[ti + 1]
-            aborted, begun = _run_txn(kind, txn, real, h, run, touched, begun=begun, overlap_next=nxt)
+            if txn.get('fresh') and kind == 'fs' and begun is None:
+                # a freshly opened storage: no pooled read handle exists yet, the first reads will
+                # happen while this transaction is voted
+                run.add('reopen', real.reopen('keep'), 'ok')
+                run.count('reopen:fresh-before-txn')
+            aborted, begun = _run_txn(
+                kind, txn, real, h, run, touched, begun=begun, overlap_next=nxt,
+                midq=(lambda: _queries(kind, real, h, api, run, rq, False, touched))
+                if kind == 'fs' and not (kind == 'demo' and ti + 1 <= base_n) else None)
             if kind == 'demo' and ti + 1 == base_n:
                 real.wrap_demo()
             last = ti + 1 == len(txns)
@@ -710,7 +749,7 @@ def _begin_args(kind, txn, ltid):
                 mline='m.begin %s %s %s %s' % (t, tok(u), tok(d), tok(e)))
 
 
-def _run_txn(kind, txn, real, h, run, touched, begun=None, overlap_next=None):
+def _run_txn(kind, txn, real, h, run, touched, begun=None, overlap_next=None, midq=None):
     """one transaction.  `begun` = (args, observation) when its tpc_begin was already entered by a
     second thread while the previous transaction was in progress; `overlap_next` = the next
     transaction, whose tpc_begin is to be entered that way before this one finishes.
@@ -745,8 +784,28 @@ def _run_txn(kind, txn, real, h, run, touched, begun=None, overlap_next=None):
         run.count('begin:overlapped')
         if real._holder.get('arrived'):
             run.count('begin:overlapped:waited-for-commit-lock')
-    if ok and txn.get('end', 'commit') == 'commit':
+    end = txn.get('end', 'commit')
+    if ok and end == 'abort-voted' and kind == 'fs':
+        # voted, queried (the pooled read handles now hold the voted bytes), then aborted: the next
+        # transaction is written over the same file region
+        run.add('vote', real.vote(), 'ok')
+        if midq is not None:
+            midq()
+            run.count('queries:while-voted')
+        # one more ordinary read while the commit is pending: the oldest record, so that the pooled
+        # read handle buffers the file from its beginning up to and including the voted bytes
+        first = next(((r[0], t['tid']) for t in h.txns for r in t['recs'] if r[1] is not None), None)
+        if first is not None:
+            real.loadBefore(first[0], first[1] + 1)
+        run.count('abort:after-vote')
+        ok = False
+    if ok and end == 'commit':
         run.add('vote' if kind == 'fs' else None, real.vote(), 'ok')
+        if midq is not None:
+            # voted, not finished: the file ends with the complete record, checkpoint flag set;
+            # every answer (the iterator reads the file!) is still that of the committed history
+            midq()
+            run.count('queries:while-voted')
         robs = real.finish()
         # the property: transaction ids strictly increase in commit order
         good = robs.startswith('ok tid=') and int(robs.split('tid=')[1], 16) == rtid and rtid > h.ltid()
@@ -1071,6 +1130,25 @@ def gen_case(rng, kind, thorough=False):
         if kind == 'fs' and rng.random() < 0.22:
             t['reopen'] = rng.choice(['keep', 'drop'])
         txns.append(t)
+    # a transaction aborted after its vote, followed by one of exactly the same shape (it lands on the
+    # same file offsets)
+    if kind == 'fs':
+        for i in range(ntx - 1):
+            if txns[i]['end'] == 'commit' and txns[i]['ops'] and rng.random() < 0.07:
+                txns[i]['end'] = 'abort-voted'
+                txns[i]['reopen'] = None
+                if rng.random() < 0.6:
+                    txns[i]['fresh'] = True
+                if rng.random() < 0.75:
+                    twin = json.loads(json.dumps(txns[i]))
+                    twin['end'] = 'commit'
+                    twin.pop('fresh', None)
+                    twin['tid'] = txns[i + 1]['tid']
+                    for op in twin['ops']:
+                        for x in op:
+                            if isinstance(x, list) and x and x[0] == 'd':
+                                x[1] = (x[1] + 1 + rng.randrange(4)) % 6
+                    txns[i + 1] = twin
     # now and then the next transaction's tpc_begin is entered by a second thread while this one is
     # still in progress, with a clock that has not moved (or has stepped back) in between
     for i in range(ntx - 1):
